@@ -104,13 +104,13 @@ PROPS = {
     ),
     "C04": dict(
         level="proof", modules=CODEC_MODS + ["NasVerif.Props.C04"], parts=["Codec"],
-        streams=[("spec", 25, 300, "spec"), ("codec-dec", 3000, 30000)], oracle="C01",
+        streams=[("spec", 25, 300, "spec"), ("codec-dec", 3000, 30000), ("codec-enc", 400, 4000, "model", "C02")], oracle="C01",
         trusted_base=TB_CODEC + ["Spec/Tables.lean: the 45 message tables in TS 24.501 vocabulary, derived from the generated code at the pinned commit and reviewed against TS 24.501 V15.7 §8.2/§8.3",
                                   "Spec/Msg.lean: renderer and table-driven decoder written from TS 24.007 §11.2 framing rules"],
         rule="per message: well-formed messages (spec renderer vs real encoder), canonical + shuffled/duplicated/unknown/boundary-length/truncated inputs (spec table-driven decoder vs real decoder), plus the table-driven model correspondence stream; non-trivial = accepted",
     ),
     "C06": dict(
-        level="proof", modules=["NasVerif.Props.C06"], parts=["Crypto"],
+        level="proof", modules=["NasVerif.Props.C06"], parts=["Crypto", "Globals"], extra=c08_extra,
         streams=[("secspec", 1000, 6000, "spec"), ("security", 2000, 12000)], oracle=None,
         trusted_base=TB_COMMON + ["Spec/Snow3G.lean, Spec/ZUC.lean, Spec/EEA.lean, Spec/AES.lean: transcriptions of the ETSI/SAGE, ZUC v1.6, EEA3/EIA3 v1.8, FIPS-197, SP 800-38A/B, TS 33.401 Annex B specifications, validated on published vectors",
                                    "hand-written Model/Snow3g.lean, Model/Zuc.lean, Model/Security.lean mirror the Go functions; tied by the correspondence run (keystreams, leaf functions through verif hooks, NEA/NIA at every bit length)",
@@ -118,7 +118,7 @@ PROPS = {
         rule="direct Go-vs-specification stream: every bit length 0..200 (thorough 0..700) x 3 algorithms, all 32 bearers x 2 directions, random keys/counts (incl. 0xffffffff), random longer payloads; plus model correspondence (keystreams, leaf functions, per-algorithm functions); non-trivial = distinct op executed",
     ),
     "C07": dict(
-        level="proof", modules=["NasVerif.Props.C07"], parts=["Crypto"],
+        level="proof", modules=["NasVerif.Props.C07"], parts=["Crypto", "Globals"], extra=c08_extra,
         streams=[("secspec", 1000, 6000, "spec"), ("security", 2000, 12000)], oracle=None,
         trusted_base=TB_COMMON + ["same specification files and models as C06"],
         rule="as C06; MAC messages canonically packed (pad bits zero), every bit length incl. non-multiples of 8/32/64",
